@@ -56,3 +56,37 @@ Theorem C16_written_file_loads : forall compress decompress c,
     cs_loads st <= N.of_nat (length ops) * (2 * (m_levels m + 2)).
 Proof. exact written_file_history. Qed.
 Print Assumptions C16_written_file_loads.
+
+(* ---- byte level: what a load and a version-1 open consult ---- *)
+From Grenad.gen Require Import Consts.
+From Grenad.model Require Import Block Trailer.
+From Grenad.proofs Require Import Locality.
+
+(* a block load at an offset depends only on the frame that starts there — its 8-byte length h and the
+   body b of that length: the files may differ arbitrarily before and after it, and the result is the parse
+   of the decompressed body.  (The instrumented source of the correspondence checks the same of the
+   implementation: no byte beyond the frame sought is read.) *)
+Theorem C16_load_reads_only_its_frame : forall dec codec ord pre pre' h b post post',
+  len pre = len pre' -> len h = 8 -> len b = be_decode h ->
+  load_block dec (pre ++ h ++ b ++ post) codec ord (len pre) = load_block dec (pre' ++ h ++ b ++ post') codec ord (len pre).
+Proof. exact load_block_frame. Qed.
+Print Assumptions C16_load_reads_only_its_frame.
+
+Theorem C16_load_value : forall dec codec ord pre h b post,
+  len h = 8 -> len b = be_decode h ->
+  load_block dec (pre ++ h ++ b ++ post) codec ord (len pre) = bind (dec codec b) parse_block.
+Proof. exact load_block_frame_value. Qed.
+Print Assumptions C16_load_value.
+
+(* a file ending in the version-1 magic: open depends only on its last 21 bytes — its own trailer *)
+Theorem C16_open_v1_reads_only_the_trailer : forall pre f, 21 <= len f ->
+  le_decode (firstnN 4 (skipnN (len f - 4) f)) = MAGIC_V1 ->
+  open_meta (pre ++ f) = open_meta f.
+Proof. exact open_meta_v1_suffix. Qed.
+Print Assumptions C16_open_v1_reads_only_the_trailer.
+
+Example C16_v1_example :
+  let f := le_bytes 8 300 ++ [4] ++ le_bytes 8 77 ++ le_bytes 4 MAGIC_V1 in
+  len f = 21 /\ le_decode (firstnN 4 (skipnN (len f - 4) f)) = MAGIC_V1 /\
+  open_meta ([1; 2; 3] ++ f) = Done (mk_meta FormatV1 300 4 77 0).
+Proof. vm_compute. repeat split. Qed.
